@@ -64,7 +64,11 @@ type Transparent func(c *ssa.Call) []ssa.Value
 // Origins computes the backward slice of v inside its function.
 func (ff *FuncFacts) Origins(v ssa.Value) []Origin { return ff.OriginsT(v, nil) }
 
-func (ff *FuncFacts) OriginsT(v ssa.Value, tr Transparent) []Origin {
+func (ff *FuncFacts) OriginsT(v ssa.Value, tr Transparent) []Origin { return ff.OriginsAt(v, "", tr) }
+
+// OriginsAt is OriginsT for the component of v selected by the field path start
+// (".Sender", "#0.Sender", …).
+func (ff *FuncFacts) OriginsAt(v ssa.Value, start string, tr Transparent) []Origin {
 	var out []Origin
 	seen := map[ssa.Value]bool{}
 	var walk func(v ssa.Value, path string, depth int)
@@ -223,7 +227,74 @@ func (ff *FuncFacts) OriginsT(v ssa.Value, tr Transparent) []Origin {
 			emit(Origin{"expr", "?", path, v})
 		}
 	}
-	walk(v, "", 0)
+	walk(v, start, 0)
+	return out
+}
+
+// DeepOrigins expands call origins through the bodies of module functions: an origin
+// "result (component p) of f(args)" is replaced by the origins, in the caller, of whatever f
+// returns there — parameters of f mapped back to the arguments of the call.  A helper that
+// merely repackages its inputs (msg.Parties() returning {Sender: decode(msg.Sender), …}) is
+// thereby transparent, across packages.  depth bounds the nesting; what cannot be expanded
+// stays a call origin.
+func (P *Program) DeepOrigins(ff *FuncFacts, v ssa.Value, start string, tr Transparent, depth int) []Origin {
+	var out []Origin
+	for _, o := range ff.OriginsAt(v, start, tr) {
+		call, isCall := o.Val.(*ssa.Call)
+		if o.Kind != "call" || !isCall || depth <= 0 {
+			out = append(out, o)
+			continue
+		}
+		sc := call.Common().StaticCallee()
+		if sc == nil || !InModule(sc) || len(sc.Blocks) == 0 || call.Common().IsInvoke() {
+			out = append(out, o)
+			continue
+		}
+		// result index and the path below it
+		idx, sub := 0, o.Path
+		if strings.HasPrefix(sub, "#") {
+			j := 1
+			for j < len(sub) && sub[j] >= '0' && sub[j] <= '9' {
+				idx = idx*10 + int(sub[j]-'0')
+				j++
+			}
+			sub = sub[j:]
+		}
+		cf := P.Facts(sc)
+		expanded, okAll := []Origin{}, true
+		nret := 0
+		for _, ex := range cf.Exits() {
+			ret, ok := ex.Instr.(*ssa.Return)
+			if !ok || ex.Kind == ExitError || idx >= len(ret.Results) {
+				continue
+			}
+			nret++
+			for _, io := range P.DeepOrigins(cf, ret.Results[idx], sub, tr, depth-1) {
+				if io.Kind == "param" {
+					mapped := false
+					for i, prm := range sc.Params {
+						if ssa.Value(prm) == io.Val && i < len(call.Common().Args) {
+							expanded = append(expanded, P.DeepOrigins(ff, call.Common().Args[i], io.Path, tr, depth-1)...)
+							mapped = true
+						}
+					}
+					if !mapped {
+						okAll = false
+					}
+					continue
+				}
+				if io.Kind == "const" || io.Kind == "zero" {
+					continue // zero values on fall-back paths carry nothing
+				}
+				okAll = false
+			}
+		}
+		if okAll && nret > 0 && len(expanded) > 0 {
+			out = append(out, expanded...)
+		} else {
+			out = append(out, o)
+		}
+	}
 	return out
 }
 
